@@ -4,6 +4,8 @@ package varlink
 
 import (
 	"net"
+	"reflect"
+	"strings"
 
 	"github.com/varlink/go/varlink/internal/ctxio"
 )
@@ -15,12 +17,34 @@ func (s *Service) VerifSetListener(l net.Listener) {
 	s.mutex.Unlock()
 }
 
-// VerifActiveConnections returns the number of connections currently being handled.
+// VerifActiveConnections returns the number of connections currently being handled: the counter field, or - when a
+// change to the library has replaced the counter by a collection of the open connections - the size of that
+// collection. -1 means the accounting could not be located (the harness then reports "inconclusive", not a violation).
 func (s *Service) VerifActiveConnections() int64 {
 	s.mutex.Lock()
-	n := s.conncounter
-	s.mutex.Unlock()
-	return n
+	defer s.mutex.Unlock()
+	v := reflect.ValueOf(s).Elem()
+	if f := v.FieldByName("conncounter"); f.IsValid() {
+		switch f.Kind() {
+		case reflect.Int, reflect.Int32, reflect.Int64:
+			return f.Int()
+		case reflect.Uint, reflect.Uint32, reflect.Uint64:
+			return int64(f.Uint())
+		}
+	}
+	n, found := int64(0), false
+	for i := 0; i < v.NumField(); i++ {
+		name := strings.ToLower(v.Type().Field(i).Name)
+		f := v.Field(i)
+		if strings.Contains(name, "conn") && (f.Kind() == reflect.Map || f.Kind() == reflect.Slice) {
+			n += int64(f.Len())
+			found = true
+		}
+	}
+	if found {
+		return n
+	}
+	return -1
 }
 
 // VerifNewConnection wraps an already established net.Conn exactly as NewConnection does after dialling.
